@@ -86,6 +86,7 @@ Resolve(forest, b) ==
      IN [u |-> ElemUri(nb, e), l |-> e.l, rawp |-> e.p,
          attrs  |-> {<<AttrUri(nb, a), a.l, a.v>> : a \in Ran(PlainOf(e))},
          decls  |-> {<<DeclPrefix(a), a.v>> : a \in Ran(DeclsOf(e))},
+         inscope |-> nb,
          faults |-> ElemFaults(e, b),
          kids   |-> Resolve(e.c, nb)]]
 
@@ -130,10 +131,19 @@ BodyAttrs(src, b, body) ==
 (* an attribute added later replaces one with the same expanded name (7.1.3) *)
 LastWins(s) == {s[i] : i \in {i \in 1..Len(s) : \A j \in (i + 1)..Len(s) : ~(s[j][1] = s[i][1] /\ s[j][2] = s[i][2])}}
 
-RECURSIVE ReqCopyOf(_)
-ReqCopyOf(e) == [u |-> e.u, l |-> e.l, kind |-> "copy-of", excl |-> {}, aliasS |-> {},
-                 attrs |-> {<<a.u, a.l, a.v>> : a \in Ran(e.a)},
-                 kids  |-> [i \in 1..Len(e.c) |-> ReqCopyOf(e.c[i])]]
+(* the namespace nodes an element with the declarations b in scope has (XPath 5.4): one per prefix, the innermost declaration,  *)
+(* none for an undeclared default namespace; the xml prefix is implicit everywhere and not listed                                *)
+LatestBindings(b) == {<<b[i][1], b[i][2]>> : i \in {i \in 1..Len(b) : \A j \in (i + 1)..Len(b) : b[j][1] # b[i][1]}}
+NsNodesOf(b) == {x \in LatestBindings(b) : x[2] \notin {"", Unbound} /\ x[1] \notin {"xml", "xmlns"}}
+
+(* nsn = the namespace nodes the result element must HAVE: 11.3 / 7.5 copy those of the source element, 7.1.1 those of the      *)
+(* literal result element in the stylesheet except the XSLT namespace and the excluded ones (nodes touched by an alias: the     *)
+(* Recommendation does not say which prefix they get - not required here); xsl:element asks for none                             *)
+RECURSIVE ReqCopyOfB(_, _)
+ReqCopyOfB(e, b) == LET nb == b \o e.nsd IN
+                [u |-> e.u, l |-> e.l, kind |-> "copy-of", excl |-> {}, aliasS |-> {},
+                 attrs |-> {<<a.u, a.l, a.v>> : a \in Ran(e.a)}, nsn |-> NsNodesOf(nb),
+                 kids  |-> [i \in 1..Len(e.c) |-> ReqCopyOfB(e.c[i], nb)]]
 
 (* ex = namespace URIs excluded at this point of the stylesheet (stylesheet-level prefixes and     *)
 (* xsl:exclude-result-prefixes of the enclosing literal result elements)                          *)
@@ -148,19 +158,20 @@ ReqNode(ss, src, b, ex, ins) ==
              (* where aliasing and exclusion meet on one URI XSLT 1.0 is not precise: not judged *)
              excl |-> ex2 \ (AliasS(ss) \cup AliasR(ss)), aliasS |-> AliasS(ss) \ AliasR(ss),
              attrs |-> LastWins(SetAttrs(ss, ins.uas) \o lit \o BodyAttrs(src, nb, ins.body)),
+             nsn |-> {x \in NsNodesOf(nb) : x[2] # XSLTNS /\ x[2] \notin ex2 /\ x[2] \notin (AliasS(ss) \cup AliasR(ss))},
              kids |-> ReqKids(ss, src, nb, ex2, ins.body)]
     [] ins.i = "element" ->
          LET nb == b \o ins.nsd
          IN [u |-> IF ins.hasNs THEN ins.ns ELSE IF ins.p = "" THEN DefaultNs(nb) ELSE Lookup(nb, ins.p), l |-> ins.l,
-             kind |-> "element", excl |-> {}, aliasS |-> {},
+             kind |-> "element", excl |-> {}, aliasS |-> {}, nsn |-> {},
              attrs |-> LastWins(SetAttrs(ss, ins.uas) \o BodyAttrs(src, nb, ins.body)),
              kids |-> ReqKids(ss, src, nb, ex, ins.body)]
     [] ins.i = "copy" ->
          LET e == src.kids[ins.node]
-         IN [u |-> e.u, l |-> e.l, kind |-> "copy", excl |-> {}, aliasS |-> {},
+         IN [u |-> e.u, l |-> e.l, kind |-> "copy", excl |-> {}, aliasS |-> {}, nsn |-> NsNodesOf(src.nsd \o e.nsd),
              attrs |-> LastWins(SetAttrs(ss, ins.uas) \o BodyAttrs(src, b, ins.body)),
              kids |-> ReqKids(ss, src, b, ex, ins.body)]
-    [] ins.i = "copy-of" -> ReqCopyOf(src.kids[ins.node])
+    [] ins.i = "copy-of" -> ReqCopyOfB(src.kids[ins.node], src.nsd)
 ReqKids(ss, src, b, ex, body) ==
   LET el == SelectSeq(body, LAMBDA x : ~IsAttrInstr(x))
   IN [i \in 1..Len(el) |-> ReqNode(ss, src, b, ex, el[i])]
@@ -191,6 +202,17 @@ DeclFaultsAt(q, r) ==
   IN  {"excluded-namespace-declared"         : d \in {d \in r.decls : q.kind = "lre" /\ d[2] \in q.excl /\ d[2] \notin needed}}
  \cup {"alias-stylesheet-namespace-declared" : d \in {d \in r.decls : q.kind = "lre" /\ d[2] \in q.aliasS /\ d[2] \notin needed}}
  \cup {"xslt-namespace-declared"             : d \in {d \in r.decls : d[2] = XSLTNS /\ d[2] \notin needed}}
+
+(* C01 (the namespaces of the result tree): every namespace node the element must have is in scope on it, with that prefix *)
+RECURSIVE NsNodeFaultsAt(_, _, _)
+NsNodeFaultsAt(req, res, path) ==
+  UNION {{<<"namespace-node-missing", req[i].kind, req[i].l, x[1], x[2], Append(path, i)>> :
+             x \in {x \in req[i].nsn : Lookup(res[i].inscope, x[1]) # x[2]}}
+         \cup NsNodeFaultsAt(req[i].kids, res[i].kids, Append(path, i)) : i \in 1..Len(req)}
+NsNodeFaults(req, res) == NsNodeFaultsAt(req, res, <<>>)
+ObservedNsNodeFaults(req, raw, parsed) ==
+  LET a == Resolve(raw, <<>>)  b == Resolve(parsed, <<>>) IN
+  (IF SameShape(req, a) THEN NsNodeFaults(req, a) ELSE {}) \cup (IF SameShape(req, b) THEN NsNodeFaults(req, b) ELSE {})
 
 RECURSIVE TreeFaults(_, _)
 TreeFaults(req, res) ==
